@@ -15,7 +15,7 @@ prop("C11",
      quick=[{"engine": "S", "bin": "c11"}],
      thorough=[{"engine": "S", "bin": "c11"}],
      assumptions=[
-         "u64^3 is not enumerable: the claim is the stated boundary lattice (90 readings x 27 frequencies) plus the dense cube a,b,f < 96 (160 in thorough)",
+         "u64^3 is not enumerable: the claim is the stated boundary lattice (90 readings x 27 frequencies) plus the dense cube a,b,f < 96 (512 in thorough, which also adds every 2^k and 10^k with neighbours as reading and frequency, and windows of differences around whole multiples of every frequency)",
          "precision: clocks whose read spacing aliases with the step (no non-zero sample ever seen, the real loop would spin for ever) and steps below 1 ps are excluded and counted",
          "the reported (cached, per process and timer kind) precision is explored over process histories: a fresh child process per (clock step, frequency, order of up to three os / tsc queries); the OS clock is the host's, its answer is only bounded (non-zero, below 100 ms, stable within the process) while the virtual TSC steps are >= 1 s",
      ],
@@ -135,6 +135,26 @@ def pool_scenarios(tier):
         out.append(_pool([_bc(4), _bc(1)], pb=2))
         for sub in _subsets(3):
             out.append(_pool([_bc(3, sub, extend=True)], pb=3))
+        # deeper (added in round 10): every pair of panicking subsets in two consecutive broadcasts (n = 1 unbounded,
+        # n = 2 with 2 preemptions), histories of length 4 over {0,1}, four workers in longer histories, every
+        # panicking subset with four workers
+        for s1 in _subsets(1):
+            for s2 in _subsets(1):
+                out.append(_pool([_bc(1, s1), _bc(1, s2)]))
+                out.append(_pool([_bc(1, s1, extend=True), _bc(1, s2, extend=True)]))
+        for s1 in _subsets(2):
+            for s2 in _subsets(2):
+                out.append(_pool([_bc(2, s1, extend=True), _bc(2, s2, extend=True)], pb=2))
+        for h in itertools.product((0, 1), repeat=4):
+            out.append(_pool([_bc(n) for n in h], pb=None if sum(h) <= 3 else 3))
+        out.append(_pool([_bc(3), _bc(3)], pb=3))
+        out.append(_pool([_bc(4), _bc(4)], pb=2))
+        out.append(_pool([_bc(2), _bc(4)], pb=2))
+        out.append(_pool([_bc(4), _bc(2)], pb=2))
+        out.append(_pool([_bc(1), _bc(2), _bc(3), _bc(4)], pb=2))
+        out.append(_pool([_bc(4), _bc(3), _bc(2), _bc(1)], pb=2))
+        for sub in _subsets(4):
+            out.append(_pool([_bc(4, sub, extend=True), _bc(1)], pb=2))
     # de-duplicate
     seen, uniq = set(), []
     for sc in out:
@@ -305,7 +325,7 @@ def tally_scenarios(tier):
 
 prop("C09",
      quick=[{"engine": "S", "bin": "c09", "parts": 4}],
-     thorough=[{"engine": "S", "bin": "c09", "parts": 4}],
+     thorough=[{"engine": "S", "bin": "c09", "parts": 16, "timeout": 3000}],
      assumptions=[
          "request sequences up to depth 3; layouts: sizes {0,1,8,4096,2^40,isize::MAX-4095} x alignments {1,8,4096} at depth 1, a reduced set at depth 2-3",
          "'never allocates' is decided for the enumerated thread phases on Linux / thread_local!; the macOS pthread_key path is not compiled here",
